@@ -104,7 +104,8 @@ impl Metrics {
     fn collect(&self) -> (String, Bytes) {
         let encoder = prometheus::TextEncoder::new();
 
-        let metric_families = prometheus::gather();
+        // the series live in this endpoint's own registry, not in the process-wide default one
+        let metric_families = self._registry.gather();
         let mut buffer = vec![];
         encoder.encode(&metric_families, &mut buffer).unwrap();
 
